@@ -414,8 +414,12 @@ class ProvRecord(object):
 
             # Check if one of the attributes specifies that the current type
             # is a collection. In that case multiple attributes of the same
-            # type are allowed.
-            if PROV_ATTR_COLLECTION in [_i[0] for _i in attributes]:
+            # type are allowed, but only while the record is being created
+            # (a membership listing several entities); afterwards its formal
+            # attributes are single-valued as everywhere else.
+            if PROV_ATTR_COLLECTION in [_i[0] for _i in attributes] and not any(
+                self._attributes.values()
+            ):
                 is_collection = True
             else:
                 is_collection = False
